@@ -162,6 +162,32 @@ Proof.
   repeat split; [apply two_points_unit | apply two_points_reach]; exact Hne.
 Qed.
 
+(* ---- batch_of_rays *)
+Lemma batch_length entries exits : length (batch_rays entries exits) = Nat.max (length entries) (length exits).
+Proof. unfold batch_rays. rewrite map_length, seq_length. reflexivity. Qed.
+
+Lemma batch_nth entries exits d i : (i < Nat.max (length entries) (length exits))%nat ->
+  nth i (batch_rays entries exits) d = ray_two (pick entries i) (pick exits i).
+Proof.
+  intros H. unfold batch_rays.
+  rewrite (nth_map_seq (fun k => ray_two (pick entries k) (pick exits k))) by exact H. reflexivity.
+Qed.
+
+Lemma pick_single p i : pick [p] i = p.
+Proof. reflexivity. Qed.
+Lemma pick_many l i : length l <> 1%nat -> pick l i = nth i l vzero.
+Proof. intros H. unfold pick. apply Nat.eqb_neq in H. rewrite H. reflexivity. Qed.
+
+Lemma batch_sound entries exits d i : (i < Nat.max (length entries) (length exits))%nat ->
+  pick entries i <> pick exits i ->
+  let r := nth i (batch_rays entries exits) d in
+  ray_origin r = pick entries i /\ vnorm2 (ray_cosines r) = 1 /\
+  ray_at r (vnorm (vsub (pick exits i) (pick entries i))) = pick exits i.
+Proof.
+  intros Hi Hne r. unfold r. rewrite batch_nth by exact Hi.
+  repeat split; [apply two_points_unit | apply two_points_reach]; exact Hne.
+Qed.
+
 (* ================================================================ rotations *)
 Lemma rotx_dot a u v : vdot (rotx a u) (rotx a v) = vdot u v.
 Proof. dv. c14. pose proof (sin2_cos2 a) as H. unfold Rsqr in H. nsatz. Qed.
@@ -402,6 +428,57 @@ Qed.
 Lemma circle_rim rad n0 n1 centre tilt i : (1 <= n1)%nat ->
   vnorm2 (vsub (placed tilt centre (circ_local rad n0 n1 i (n1 - 1))) centre) = rad * rad.
 Proof. intros H. rewrite placed_dist. unfold circ_local. rewrite polar_norm2, circ_radius_rim by exact H. reflexivity. Qed.
+
+(* ---- circular_uniform_sample / circular_uniform_random_sample *)
+Lemma flat_map_length_sum {A B} (f : A -> list B) l : length (flat_map f l) = list_sum (map (fun x => length (f x)) l).
+Proof. induction l as [|x l IH]; simpl; [reflexivity|]. rewrite app_length, IH. reflexivity. Qed.
+
+Lemma cu_radius_bounds rad n0 i : 0 <= rad -> (i < n0)%nat -> 0 <= cu_radius rad n0 i <= rad.
+Proof.
+  intros Hr Hi. unfold cu_radius.
+  assert (H0 : 0 <= INR i) by apply pos_INR.
+  assert (H1 : INR i + 1 <= INR n0) by (rewrite <- S_INR; apply le_INR; lia).
+  assert (F : 0 <= INR i / INR n0 <= 1).
+  { split; [apply Rmult_le_pos; [lra | left; apply Rinv_0_lt_compat; lra]|].
+    apply (Rmult_le_reg_r (INR n0)); [lra|]. unfold Rdiv. rewrite Rmult_assoc, Rinv_l by lra. lra. }
+  split; nra.
+Qed.
+
+Lemma polar_in_disc rad centre tilt r a : 0 <= r <= rad -> in_disc centre tilt rad (placed tilt centre (polar r a)).
+Proof.
+  intros H. unfold in_disc. rewrite placed_rel, dot_ez, placed_dist, polar_norm2. split; [reflexivity | nra].
+Qed.
+
+Lemma circle_uniform_in rad n0 n1 centre tilt : 0 <= rad ->
+  Forall (in_disc centre tilt rad) (cu_points rad n0 n1 centre tilt).
+Proof.
+  intros Hr. apply Forall_forall. intros p Hp. unfold cu_points in Hp. apply in_flat_map in Hp.
+  destruct Hp as (i & Hi & Hp). apply in_map_iff in Hp. destruct Hp as (j & <- & _). apply in_seq in Hi.
+  apply polar_in_disc, cu_radius_bounds; [exact Hr | lia].
+Qed.
+
+Lemma count_circle_uniform rad n0 n1 centre tilt :
+  length (cu_points rad n0 n1 centre tilt) = list_sum (cu_counts n0 n1).
+Proof.
+  unfold cu_points, cu_counts. rewrite flat_map_length_sum. f_equal. apply map_ext. intros i.
+  rewrite map_length, seq_length. reflexivity.
+Qed.
+
+Lemma circle_random_in rad us angs centre tilt : 0 <= rad -> Forall (fun u => 0 <= u <= 1) us ->
+  Forall (in_disc centre tilt rad) (cur_points rad us angs centre tilt).
+Proof.
+  intros Hr HU. apply Forall_forall. intros p Hp. unfold cur_points in Hp. apply in_flat_map in Hp.
+  destruct Hp as (u & Hu & Hp). apply in_map_iff in Hp. destruct Hp as (a & <- & _).
+  rewrite Forall_forall in HU. specialize (HU u Hu).
+  apply polar_in_disc.
+  assert (S0 : 0 <= sqrt u) by apply sqrt_pos.
+  assert (S1 : sqrt u <= 1) by (rewrite <- sqrt_1; apply sqrt_le_1; lra).
+  split; nra.
+Qed.
+
+Lemma count_circle_random rad us angs centre tilt :
+  length (cur_points rad us angs centre tilt) = (length us * length angs)%nat.
+Proof. unfold cur_points. apply flat_map_length_const. intros u. apply map_length. Qed.
 
 Lemma sphere_all_on rad c k0 k1 n0 n1 : Forall (on_sphere c rad) (sphere_points rad c k0 k1 n0 n1).
 Proof.
